@@ -201,6 +201,14 @@ pub struct ConnRun {
     pub kept: Vec<(usize, Request)>,
     /// leave parsed requests queued inside the connection after a read (popped by `pop_some`)
     pub defer_pop: bool,
+    /// the owner answers every delivered request (a small 200) and, after the reads whose bit is
+    /// set, writes everything out; the output is not recorded in the steps
+    pub auto_respond: Option<u32>,
+}
+
+thread_local! {
+    /// picked up by the next `ConnRun::new` calls on this thread (None: off)
+    pub static AUTO_RESPOND: std::cell::Cell<Option<u32>> = std::cell::Cell::new(None);
 }
 
 pub fn panic_msg(e: Box<dyn std::any::Any + Send>) -> String {
@@ -220,7 +228,7 @@ impl ConnRun {
         if let Some(l) = limit {
             conn.set_payload_max_size(l);
         }
-        ConnRun { conn, ss, consumed: 0, steps: Vec::new(), drain, window: 0, keep: false, kept: Vec::new(), defer_pop: false }
+        ConnRun { conn, ss, consumed: 0, steps: Vec::new(), drain, window: 0, keep: false, kept: Vec::new(), defer_pop: false, auto_respond: AUTO_RESPOND.with(|c| c.get()) }
     }
 
     pub fn remaining(&self) -> usize {
@@ -306,6 +314,16 @@ impl ConnRun {
             }
         }
         let out = if self.drain { self.drain_out()? } else { Vec::new() };
+        if let Some(mask) = self.auto_respond {
+            for _ in 0..reqs.len() {
+                let mut r = micro_http::Response::new(micro_http::Version::Http11, micro_http::StatusCode::OK);
+                r.set_body(micro_http::Body::new("ok"));
+                self.conn.enqueue_response(r);
+            }
+            if (mask >> (self.steps.len() % 32)) & 1 == 1 && self.conn.pending_write() {
+                self.drain_out()?;
+            }
+        }
         self.steps.push(Step { ev, iov_len, got, res, reqs, out, consumed_after: self.consumed, recv_calls });
         Ok(self.steps.last().unwrap())
     }
